@@ -174,3 +174,13 @@ func RepoGoroutineSummary(dump string) []string {
 	}
 	return out
 }
+
+// QuietNow reports whether two goroutine dumps 200 ms apart show no library goroutine that is running, runnable or
+// sleeping: used to turn "did not happen within a generous wall-clock wait" into a verdict. If something can still
+// act, the wait proves nothing on a loaded machine (inconclusive); if nothing can, it will never happen (violation).
+func QuietNow() (quiet bool, dump string) {
+	gs1, _ := Dump()
+	time.Sleep(200 * time.Millisecond)
+	gs2, d2 := Dump()
+	return len(ActiveRepoGoroutines(gs1)) == 0 && len(ActiveRepoGoroutines(gs2)) == 0, d2
+}
